@@ -187,7 +187,21 @@ func docIdent(text string) (kind, ns, name string, items []map[string]interface{
 	return kind, ns, name, items, true
 }
 
+var corpusCache = map[string][]CorpusDir{}
+
+// loadCorpus reads and splits the corpus once per process.
 func loadCorpus(root string) ([]CorpusDir, error) {
+	if c, ok := corpusCache[root]; ok {
+		return c, nil
+	}
+	c, err := loadCorpusUncached(root)
+	if err == nil {
+		corpusCache[root] = c
+	}
+	return c, err
+}
+
+func loadCorpusUncached(root string) ([]CorpusDir, error) {
 	ents, err := os.ReadDir(root)
 	if err != nil {
 		return nil, err
